@@ -31,7 +31,7 @@ import (
 
 // Thread is one harness thread: a request on a shard, or a collection deletion.
 type Thread struct {
-	Kind  string `json:"kind"` // req | del
+	Kind  string `json:"kind"` // req | del | repair | reqsib (a request on shard s1 of the sibling collection "col2")
 	Shard string `json:"shard,omitempty"`
 	Twice bool   `json:"twice,omitempty"` // a request thread issues two requests in a row
 }
@@ -46,6 +46,9 @@ type Program struct {
 	// BackupFails: the backup made at idle unload returns an error (a stray file in the shard
 	// directory whose name the backup rotation cannot parse); the unload itself must still happen
 	BackupFails bool `json:"backupFails,omitempty"`
+	// Sibling: the same user has a second collection, "col2", whose id extends the id of "col";
+	// its shard s1 is loaded before the threads start and must live through the deletion of "col"
+	Sibling bool `json:"sibling,omitempty"`
 }
 
 const garbage = "this is not a bbolt database, it only has to fail to open"
@@ -164,6 +167,35 @@ func run(raw json.RawMessage, prefix []string) (*vsched.Trace, []schedlib.V, str
 		}
 		return false
 	}
+	col2 := col
+	col2.Id = "col2"
+	sibPath := filepath.Join(root, cluster.USERCOLSDIR, col2.UserId, col2.Id, "s1", "sharddb.bbolt")
+	sibRefused := false
+	sibRequest := func(name string) {
+		ran := false
+		err := sm.DoWithShard(col2, "s1", func(sh *shard.Shard) error {
+			ran = true
+			vsched.Point("callback-enter col2/s1")
+			if _, err := sh.Info(); err != nil {
+				fail("request-ran-on-closed-shard", "%s: the callback runs but the shard handle of col2/s1 is unusable: %v", name, err)
+			}
+			if n := openFds(sibPath); n > 1 {
+				fail("shard-file-open-twice", "%s: %d descriptors are open on %s while a request uses it", name, n, sibPath)
+			}
+			return nil
+		})
+		if err != nil && ran {
+			fail("request-error-after-callback", "%s on col2/s1: %v", name, err)
+		}
+		if err != nil {
+			// a clean refusal (e.g. its idle unload is under way) is allowed; whether the shard
+			// can be loaded again is decided after the run
+			hmu.Lock()
+			sibRefused = true
+			hmu.Unlock()
+		}
+		note(name + ":sib")
+	}
 	done := 0
 	var refused []string // shards the final probe could not use although their file is intact or absent
 	total := len(p.Threads)
@@ -174,6 +206,9 @@ func run(raw json.RawMessage, prefix []string) (*vsched.Trace, []schedlib.V, str
 		// preloaded shards: loaded by a finished request, idle, timer armed
 		for _, id := range p.Preload {
 			sm.DoWithShard(col, id, func(*shard.Shard) error { return nil })
+		}
+		if p.Sibling {
+			sm.DoWithShard(col2, "s1", func(*shard.Shard) error { return nil })
 		}
 		for i, th := range p.Threads {
 			i, th := i, th
@@ -192,6 +227,8 @@ func run(raw json.RawMessage, prefix []string) (*vsched.Trace, []schedlib.V, str
 						fail("delete-collection-error", "%v", err)
 					}
 					note(name + ":deleted")
+				case "reqsib":
+					sibRequest(name)
 				case "repair":
 					// the cause of a failing open goes away (the damaged file is removed)
 					vsched.Point("repair-begin " + th.Shard)
@@ -221,6 +258,9 @@ func run(raw json.RawMessage, prefix []string) (*vsched.Trace, []schedlib.V, str
 					break
 				}
 				time.Sleep(50 * time.Microsecond)
+			}
+			if p.Sibling {
+				sibRequest("probe")
 			}
 			for _, id := range []string{"s1", "s2"} {
 				ok := request("probe", id)
@@ -252,6 +292,19 @@ func run(raw json.RawMessage, prefix []string) (*vsched.Trace, []schedlib.V, str
 			if err != nil {
 				fail("shard-cannot-be-loaded-again", "after all threads and clean-up goroutines finished, requests on %s (whose database file is intact or absent) are still refused after 2 s of retries: %v", id, err)
 			}
+		}
+		if sibRefused {
+			var err error
+			for attempt := 0; attempt < 400; attempt++ {
+				if err = sm.DoWithShard(col2, "s1", func(*shard.Shard) error { return nil }); err == nil {
+					break
+				}
+				time.Sleep(5 * time.Millisecond)
+			}
+			if err != nil {
+				fail("shard-cannot-be-loaded-again", "after all threads and clean-up goroutines finished, requests on col2/s1 (a collection nobody deleted) are still refused after 2 s of retries: %v", err)
+			}
+			refused = append(refused, "col2/s1")
 		}
 		if len(refused) > 0 {
 			// the retries loaded shards outside the scheduler: close them so that their
@@ -320,7 +373,7 @@ func clipDump(dump, needle string) string {
 }
 
 func master(cfg *harness.Config, rep *harness.Report) {
-	rep.Rule = "programs: threads from {request(s1), request(s1) twice, request(s2), delete collection} (2-4 threads) x shards preloaded-and-idle or not x backups on/off, plus programs in which the database file of s1 cannot be opened until a repair thread removes it, and programs in which the backup made at idle unload fails; the idle timer of every loaded shard is a controller transition that can fire at any scheduling point while armed; scheduling points: every Lock/RLock/Unlock of the real shardmgr.go (shims), callback entry/middle/exit, deletion begin; all interleavings with at most `bound` preemptions. Invariants: the callback only runs on a usable shard handle (else a clean error before the callback), never two descriptors on one shard file, shard files present while a request uses them, no deadlock (every call returns), and a final probe can load and use every shard again (also after opens that failed)"
+	rep.Rule = "programs: threads from {request(s1), request(s1) twice, request(s2), delete collection} (2-4 threads) x shards preloaded-and-idle or not x backups on/off, plus programs in which the database file of s1 cannot be opened until a repair thread removes it, programs in which the backup made at idle unload fails, and a program with a second collection of the same user whose id extends the deleted one's; the idle timer of every loaded shard is a controller transition that can fire at any scheduling point while armed; scheduling points: every Lock/RLock/Unlock of the real shardmgr.go (shims), callback entry/middle/exit, deletion begin; all interleavings with at most `bound` preemptions. Invariants: the callback only runs on a usable shard handle (else a clean error before the callback), never two descriptors on one shard file, shard files present while a request uses them, no deadlock (every call returns), and a final probe can load and use every shard again (also after opens that failed)"
 	rep.Assumptions = []string{"virtual timer follows the Go >= 1.23 Stop/Reset contract; it fires only at quiescent points, i.e. while the cleanup goroutine waits in its select", "channel operations of shardmgr.go are real; quiescence is a stop-the-world goroutine snapshot with every goroutine blocked", "lock operations are cooperative shims (sequentially consistent)"}
 	p := pool.New(pool.Options{CPUsPerWorker: 1, JobTimeout: 300 * time.Second})
 	if cfg.Replay != "" {
@@ -379,8 +432,11 @@ func master(cfg *harness.Config, rep *harness.Report) {
 	twoQuick = append(twoQuick, failing...)
 	// the backup at idle unload fails: the shard must still be closed and load again
 	twoQuick = append(twoQuick, Program{Threads: []Thread{req1, req1}, Backups: true, BackupFails: true, Preload: []string{"s1"}})
+	// a sibling collection whose id extends the deleted collection's id keeps its loaded shard
+	sib := Thread{Kind: "reqsib"}
+	sibling := Program{Threads: []Thread{del, sib}, Preload: []string{"s1"}, Sibling: true}
 	phases := []phase{
-		{"two-thread programs, bound 0", twoQuick, 0},
+		{"two-thread programs, bound 0", append(append([]any{}, twoQuick...), sibling), 0},
 		{"three-thread programs (s1 preloaded), bound 0", mk(three, [][]string{{"s1"}}, []bool{false}), 0},
 		{"two-thread programs, bound 1", twoQuick, 1},
 	}
@@ -388,6 +444,7 @@ func master(cfg *harness.Config, rep *harness.Report) {
 		twoAll := mk(two, [][]string{nil, {"s1"}, {"s1", "s2"}}, []bool{false, true})
 		threeAll := mk(three, [][]string{nil, {"s1"}, {"s1", "s2"}}, []bool{false})
 		twoAll = append(twoAll, failing...)
+		twoAll = append(twoAll, sibling)
 		twoAll = append(twoAll, Program{Threads: []Thread{req1, req1}, Backups: true, BackupFails: true, Preload: []string{"s1"}}, Program{Threads: []Thread{req1x2, del}, Backups: true, BackupFails: true, Preload: []string{"s1"}})
 		four := []any{Program{Threads: []Thread{req1, req2, del, req1x2}, Preload: []string{"s1"}}}
 		phases = []phase{
